@@ -218,6 +218,6 @@ Next == res = Pending /\ res' = Realize(c) /\ c' = c
 
 Emit == res # Pending => PrintT(ToJson([d |-> c, r |-> res]))
 
-\* the oracle is total on every family: each case is out, err or unspec
-Total == res # Pending => ("skip" \in DOMAIN res \/ res.exp.t \in {"out", "err", "unspec"})
+\* the oracle is total on every family: each case is out, err, noval or unspec
+Total == res # Pending => ("skip" \in DOMAIN res \/ res.exp.t \in {"out", "err", "unspec", "noval"})
 =============================================================================
